@@ -430,6 +430,34 @@ func engineIndexScan(ctx *Ctx) {
 			return cdb.SearchWithOptionsAndCache(q, o)
 		}
 		for s := 0; s < steps; s++ {
+			if ws := vlib.DBWords(db.Commands); (s+h)%2 == 0 && len(ws) > 14 {
+				// the FIRST request after the step (or on a database that has never searched) is a long one: more distinct words of the
+				// database than the term cap keeps - whatever the selection of terms consults has to describe the commands of now
+				p := r.Perm(len(ws))
+				var qs []string
+				for _, i := range p[:12+r.Intn(4)] {
+					qs = append(qs, ws[i])
+				}
+				lq := strings.Join(qs, " ")
+				lo := database.SearchOptions{AllPlatforms: true, Limit: len(db.Commands) + 1}
+				lcs := map[string]interface{}{"history": hist, "n": len(db.Commands), "query": lq, "opts": vlib.OptsJ(lo), "after": where, "class": "first request after the step"}
+				ctx.R.Begin(lcs)
+				ctx.R.Eval(1)
+				ctx.R.Guard("C03", "SearchUniversal", lcs, func() {
+					got := vlib.Canon(db.Commands, db.SearchUniversal(lq, lo))
+					// the same entries indexed from scratch: which terms of a long request are kept is decided from the commands of now
+					twin := &database.Database{Commands: append([]database.Command(nil), db.Commands...)}
+					twin.BuildUniversalIndex()
+					want := vlib.Canon(twin.Commands, twin.SearchUniversal(lq, lo))
+					if !vlib.Exact(got, want) {
+						ctx.R.Violate(vlib.Violation{Property: "C03", Clause: "stale-index", Path: where + "/first-long-request",
+							Detail:  fmt.Sprintf("the first request after the step (%d distinct words) is answered differently from the same entries indexed from scratch: %d vs %d results", len(qs), len(got), len(want)),
+							Witness: map[string]interface{}{"case": lcs, "got": got, "indexed_from_scratch": want}})
+					}
+				})
+				c03Check(ctx, db, hist, lq, database.SearchOptions{AllPlatforms: true}, where)
+				ctx.R.Path("long-first-requests-after-a-step", 1)
+			}
 			// requests issued (and cached) earlier in the history are asked again: the answer must follow the commands of now
 			for i := 0; i < len(earlier) && i < 3; i++ {
 				e := earlier[len(earlier)-1-i]
